@@ -148,7 +148,10 @@ CHECKS["C07"] = dict(
          "TradingEnv comparing track-record entries (stamp, pre/post NLV, trades, commissions, interest), derived frames, all four "
          "reward functions and the compounding of simple returns; a published reference-rate path that falls to zero "
          "(RatePath); at the account level (Broker.tla, epsilon 1/1000) rebalances that trade a sliver of a contract: the trades an "
-         "entry lists, applied to its pre-trade NLV, give its post-trade NLV.",
+         "entry lists, applied to its pre-trade NLV, give its post-trade NLV. The frame accessors are read after every executed "
+         "decision as well as at the end (rows = entries), per-row and cumulative costs, entries addressed by position and by stamp, "
+         "the burn-in option, and a deepcopy / pickle copy of the record must report the same costs; allow-listed regression tests "
+         "of the repository run under a recording plugin and TLC validates every recorded episode (EnvTrace.tla).",
     design="5 C07", technique="TLA+ spec (EnvFull.tla over LedgerOps/TransmitterOps) model-checked with TLC; every behaviour "
                               "replayed into the real TradingEnv", note=FULL_NOTE)
 CHECKS["C09"] = dict(
@@ -201,7 +204,8 @@ CHECKS["C10"] = dict(
          "roll); each environment's rewards, trades, holdings, NLV and track record are compared bit for bit with the same calls "
          "run alone and, after the last reset, with a freshly built environment. On Env.tla behaviours with resets anywhere "
          "(abandoned episodes, episodes ended by a malformed action, folds, markov / warm-up, latency, delay) the episode after the "
-         "last reset is compared bit for bit with a fresh environment.",
+         "last reset is compared bit for bit with a fresh environment. Each environment of a pair observes its portfolio weights "
+         "through the library's FeaturePortfolioWeight declared with its own bounds (observations are part of the comparison).",
     design="5 C10", technique="TLA+ composition (EnvPair.tla) model-checked with TLC; every schedule replayed on real "
                               "environments and compared bit for bit with solo / fresh runs", note=FULL_NOTE)
 CHECKS["C16"] = dict(
@@ -210,7 +214,8 @@ CHECKS["C16"] = dict(
          "ScaleInvariant, DrawdownRange, ReturnsCompound, TailBelowVar, and writes the exact values; each series is evaluated by the "
          "pandas methods (returns, CAGR via (1+CAGR)^years = last/first, volatility^2/252, drawdown, VaR, ES, down/upside, ulcer, "
          "tracking error, Sharpe/Sortino/Calmar/Martin composed from the pieces, scale invariance, DataFrame variant) and every "
-         "single-defect corruption must be rejected.",
+         "single-defect corruption must be rejected; the rows of tearsheet() equal the metric methods, also after another series with "
+         "the same end points and length has been reported on in the same process.",
     design="5 C16", level="model_checking", technique="TLA+ definitions over exact rationals enumerated by TLC on a bounded "
                               "domain; every series evaluated by the real pandas methods",
     note="Bounded domain only (series of 2..5 observations, levels 1..4); regressions (alpha/beta) and omega ratio not covered.")
